@@ -18,11 +18,24 @@ def files():
         _FILES = sorted(os.path.relpath(f, vsgapi.REPO) if f.startswith(vsgapi.REPO) else f for f in fs)
         bad = set()
         ex = os.path.join(vsgapi.VERIF, "tables", "invalid_fixtures.txt")
+        marks = []
         for l in open(ex):
             l = l.split("#")[0].strip()
-            if l:
+            if l.startswith("content:"):
+                marks.append(l[len("content:") :].strip())
+            elif l:
                 bad.add(l)
         _FILES = [f for f in _FILES if f not in bad]
+        if marks:
+            keep = []
+            for f in _FILES:
+                try:
+                    t = open(path(f), encoding="latin-1").read()
+                except OSError:
+                    continue
+                if not any(m in t for m in marks):
+                    keep.append(f)
+            _FILES = keep
     return _FILES
 
 
